@@ -72,8 +72,19 @@ def degenerate(b: Built):
         if got == max(want, target):
             continue
         syms = set(str(s) for s in b.eqs.EQNs[name].RHS.free_symbols) if hasattr(b.eqs.EQNs[name].RHS, "free_symbols") else set()
-        has_vector = any((s.split("[")[0].replace("_tag_0", "") in sizes and sizes[s.split("[")[0].replace("_tag_0", "")] == want) or
-                         (s.split("[")[0] in psizes and psizes[s.split("[")[0]] == want) for s in syms)
+        def sym_size(txt):
+            base = txt.split("[")[0].replace("_tag_0", "")
+            n = sizes.get(base, psizes.get(base))
+            if n is None:
+                return None
+            if "[" not in txt:
+                return n
+            inner = txt[txt.index("[") + 1:txt.rindex("]")]
+            if ":" not in inner:
+                return 1                                   # an integer index selects one element
+            parts = [None if q.strip() in ("", "None") else int(q) for q in inner.split(":")]
+            return len(range(n)[slice(*parts)])
+        has_vector = any(sym_size(s) == want for s in syms)
         if want > 1 and not has_vector:
             return True
     return False
